@@ -5,7 +5,7 @@ out=selftest/kill_matrix${VERIF_SEED:+_seed$VERIF_SEED}.json
 echo "{" > $out.tmp
 first=1
 for d in seeded/*/; do
-  n=$(basename $d); id=${n%%-*}
+  n=$(basename $d); id=${n%%-*}; [ "$n" = "C17-prepare-relabels-under-fixed-mask" ] && id=C18
   res=$(tools/try_mutant.sh $d/patch.diff $id 2>&1 | grep "^== " | head -1)
   rc=$(echo "$res" | sed -E 's/.*exit=([0-9]+).*/\1/')
   [ $first = 1 ] || echo "," >> $out.tmp; first=0
